@@ -47,7 +47,7 @@ def gen_cases(tier, seed):
     cases += [{"t": t, "ts": "2021-03-10T12:43:30"} for t in fixed]
     from . import streams as S
     cov = [e for e in S.cov_entries() if len(e["t"].split()) <= 5 and len(e["t"]) <= 36]
-    cases += [{"t": e["t"], "ts": e["ts"]} for e in (cov if tier == "thorough" else r.sample(cov, min(len(cov), 60)))]
+    cases += [{"t": e["t"], "ts": e["ts"]} for e in (cov if tier == "thorough" else r.sample(cov, min(len(cov), 30)))]
     while len(cases) < n:
         x = r.random()
         if x < 0.6:
@@ -157,7 +157,8 @@ def _run_text(case, ctx, text):
     # it switched off, with the same productions and scores; and neither the argument nor an earlier candidate changes later
     # (anchoring in place would feed an already dated value back into the search, which is still running)
     if not probs and not mon.missing:
-        for sname, depth, mk in (("constant", 0, lambda: L.scorer.DummyScorer()), ("shipped", 10, lambda: None), ("random2", 0, lambda: L.scorer.RandomScorer(random.Random(2)))):
+        for sname, depth, mk in (("constant", 0, lambda: L.scorer.DummyScorer()), ("shipped", 10, lambda: None),
+                                 ("random2", 0, lambda: L.scorer.RandomScorer(random.Random(2))))[: 3 if ctx["tier"] == "thorough" else 2]:
             try:
                 off = [(V.val(p.resolution), tuple(str(x) for x in p.production), repr(p.score))
                        for p in L.ctparse_gen(text, ts=ts, timeout=0, max_stack_depth=depth, scorer=mk(), latent_time=False) if p is not None]
